@@ -201,7 +201,7 @@ PROPS = {
     },
     "C03": {
         "level": "translation_validation",
-        "streams": ["C03"],
+        "streams": ["C03", "MB"],
         "case_ms": 5000,
         "rule": "generated programs (fully annotated, annotations omitted, `_` in types; base, function, dependent and computed types, "
                 "groups, polymorphic and dependent library-style programs) and, for each, two or three single-node perturbations (operand "
@@ -212,6 +212,7 @@ PROPS = {
             "the validator is Oracle/Infer.v (whnf, convb, infer), proved sound against Spec/Typing.v (infer_sound, convb_sound, whnf_sound); the typing rules themselves (Spec/Typing.v: has_type, conv, red; type : type; holes as opaque type constants) are the specification and are trusted to be the language's rules",
             "hook H1 (feature verif): counter of unresolved holes met by `open`, used only to attribute a failure to the recorded finding D9",
             "modelled, not verified: zonking (replacing a solved hole by its shifted solution) is done by the harness at export",
+            "Model B (coq/Model/ModelB.v): store-passing mirror of type_check_rec / unify / normalize_weak_head / open-with-holes, tied to the code by the MB stream (verdict, zonked elaborated term and type with cells numbered by first occurrence)",
         ],
         "assumptions": ["soundness of the implementation's checker as a universal theorem is not claimed; the property is decided per accepted instance by a proved validator",
                         "instances on which the validator runs out of fuel are inconclusive"],
@@ -228,12 +229,13 @@ PROPS = {
             "the validator is Oracle/Infer.v (whnf, convb, infer), proved sound against Spec/Typing.v (infer_sound, convb_sound, whnf_sound); the typing rules themselves (Spec/Typing.v: has_type, conv, red; type : type; holes as opaque type constants) are the specification and are trusted to be the language's rules",
             "hook H1 (feature verif): counter of unresolved holes met by `open`, used only to attribute a failure to the recorded finding D9",
             "modelled, not verified: zonking (replacing a solved hole by its shifted solution) is done by the harness at export",
+            "Model B (coq/Model/ModelB.v): store-passing mirror of type_check_rec / unify / normalize_weak_head / open-with-holes, tied to the code by the MB stream (verdict, zonked elaborated term and type with cells numbered by first occurrence)",
         ],
         "assumptions": ["preservation as a universal theorem is not claimed (needs Pi-injectivity, hence confluence)"],
     },
     "C05": {
         "level": "translation_validation",
-        "streams": ["C05"],
+        "streams": ["C05", "MB"],
         "case_ms": 5000,
         "rule": "fully annotated programs from the type-directed generator plus polymorphic / higher-order / dependent / recursive-group "
                 "templates; each program whose parsed term the extracted verified checker certifies (so `well typed under the typing rules` "
@@ -244,6 +246,7 @@ PROPS = {
             "the validator is Oracle/Infer.v (whnf, convb, infer), proved sound against Spec/Typing.v (infer_sound, convb_sound, whnf_sound); the typing rules themselves (Spec/Typing.v: has_type, conv, red; type : type; holes as opaque type constants) are the specification and are trusted to be the language's rules",
             "hook H1 (feature verif): counter of unresolved holes met by `open`, used only to attribute a failure to the recorded finding D9",
             "modelled, not verified: zonking (replacing a solved hole by its shifted solution) is done by the harness at export",
+            "Model B (coq/Model/ModelB.v): store-passing mirror of type_check_rec / unify / normalize_weak_head / open-with-holes, tied to the code by the MB stream (verdict, zonked elaborated term and type with cells numbered by first occurrence)",
         ],
         "assumptions": ["completeness of a unification-based checker is not provable here; the first sentence is decided per certified instance"],
     },
@@ -280,7 +283,7 @@ PROPS = {
     },
     "C18": {
         "level": "proof",
-        "streams": ["C18"],
+        "streams": ["C18", "MB"],
         "case_ms": 5000,
         "rule": "(a) generated closed programs of function types, half of them prefixed by a two-definition group, and type-perturbed "
                 "variants: 1-4 outer binder layers (annotated lambdas, whole groups) are peeled into the typing / definitions contexts "
@@ -294,7 +297,7 @@ PROPS = {
         "trusted_base": TB_COMMON + [
             "mirrors: Oracle/Infer.v whnf / convb under Spec/Typing.v contexts (lookup_ty / lookup_def with offsets), sound for red G / conv G",
         ],
-        "assumptions": ["type_check under a context is compared with the closed wrapper on the implementation itself; no Coq mirror of type_check_rec's context handling (Model B) is part of this development yet"],
+        "assumptions": ["type_check under a context is compared with the closed wrapper on the implementation itself; Model B (coq/Model/ModelB.v) passes the contexts down functionally, so restoration is observed on the implementation, not proved"],
     },
     "C19": {
         "level": "proof",
